@@ -346,3 +346,73 @@ func ruleREWRITTENKEY(c *Ctx) {
 		c.add(rule, "count:", token.NoPos, CountDropped, true, "no map copy under a rewritten key found (syntaxLoader.convertPart confirmed by hand)")
 	}
 }
+
+// AGREE(fold-table): appendNamedSet closes a named Unicode class under case folding with the
+// companion table of the table it found the class in: unicode.FoldCategory for a class from
+// unicode.Categories, unicode.FoldScript for one from unicode.Scripts. A lookup in the other
+// companion finds nothing (nil is silently appended as no ranges), and \p{Greek} under
+// caseInsensitive no longer matches the cross-script fold partners of Greek letters.
+func ruleFOLDTABLE(c *Ctx) {
+	const rule = "AGREE(fold-table)"
+	f := c.SSAFunc("lex", "appendNamedSet")
+	if f == nil {
+		c.Lost(rule, "lex.appendNamedSet", "function not found")
+		return
+	}
+	globalOf := func(v ssa.Value) string {
+		ld, ok := v.(*ssa.UnOp)
+		if !ok || ld.Op != token.MUL {
+			return ""
+		}
+		g, ok := ld.X.(*ssa.Global)
+		if !ok || g.Pkg == nil || g.Pkg.Pkg.Path() != "unicode" {
+			return ""
+		}
+		return g.Name()
+	}
+	companion := map[string]string{"FoldCategory": "Categories", "FoldScript": "Scripts"}
+	n := 0
+	for _, b := range f.Blocks {
+		for _, ins := range b.Instrs {
+			lk, ok := ins.(*ssa.Lookup)
+			if !ok {
+				continue
+			}
+			fold := globalOf(lk.X)
+			want, isFold := companion[fold]
+			if !isFold {
+				continue
+			}
+			n++
+			key := fmt.Sprintf("lex.appendNamedSet:unicode.%s", fold)
+			found := ""
+			for _, g := range flattenConds(governing(b)) {
+				bo, ok := g.V.(*ssa.BinOp)
+				if !ok {
+					continue
+				}
+				for _, side := range []ssa.Value{bo.X, bo.Y} {
+					if src, ok := side.(*ssa.Lookup); ok {
+						if name := globalOf(src.X); name != "" && ((bo.Op == token.NEQ && g.Pol) || (bo.Op == token.EQL && !g.Pol)) {
+							found = name
+						}
+					}
+				}
+				if found != "" {
+					break
+				}
+			}
+			switch found {
+			case want:
+				c.Ok(rule, key, lk.Pos(), "unicode.%s is consulted for a class found in unicode.%s", fold, want)
+			case "":
+				c.Undec(rule, key, lk.Pos(), "the table in which the class was found could not be read from the governing conditions")
+			default:
+				c.Bad(rule, key, lk.Pos(), "a class found in unicode.%s is folded with unicode.%s (the companion of unicode.%s): the lookup yields nil, nothing is added, and the class is not closed under case folding", found, fold, want)
+			}
+		}
+	}
+	if n < 2 {
+		c.add(rule, "count:", token.NoPos, CountDropped, true, "only %d fold-table lookups found in appendNamedSet (FoldCategory and FoldScript confirmed by hand)", n)
+	}
+}
